@@ -366,6 +366,14 @@ M11(L) == A11(L) =>
 
 \* --- C12 ---------------------------------------------------------------
 A12(L) == AGrp(L) /\ L.gk # "log"
+\* numbers too large to represent are involved in the judgement of this reply
+IsHuge(n) == n >= CAP
+HugeRep(r) == r.ccp = 1 /\ (IsHuge(r.ma) \/ IsHuge(r.swr) \/ IsHuge(r.sie))
+HugeInvolved(L) ==
+  LET R == L.last IN
+  \/ IsHuge(R.rq.ma) \/ IsHuge(R.rq.mf) \/ IsHuge(R.rq.ms) \/ IsHuge(R.rq.sie)
+  \/ HugeRep(R.rep)
+  \/ \E T \in R.cands : HugeRep(R.effBefore[T].rep)
 M12(L) == A12(L) => L.obsq = L.canon
 
 \* --- C13 ---------------------------------------------------------------
@@ -384,6 +392,10 @@ M13(L) ==
   /\ (A13m(L) =>
         LET R == L.last IN
         /\ R.fromStore /\ R.e.tok \in R.cands /\ R.e.label = "STALE" /\ AgeOK(L))
+
+\* "at least 2^31 seconds instead of wrapping around": the freshness / reuse / stale-if-error monitors hold
+\* whenever such a number decided
+M12x(L) == IsRet(L) /\ HugeInvolved(L) => M01(L) /\ M09(L) /\ M13(L)
 
 \* --- C16 ---------------------------------------------------------------
 A16(L) == (IsRet(L) /\ L.conc) \/ L.last.kind \in {"mut", "race"} \/ (IsEnd(L) /\ L.swrx # {})
@@ -434,7 +446,7 @@ M20(L) ==
 Mons(L) ==
   { <<"C01", M01(L)>>, <<"C02", M02(L)>>, <<"C03", M03(L)>>, <<"C04", M04(L)>>, <<"C05", M05(L)>>,
     <<"C06", M06(L)>>, <<"C07", M07(L) /\ M07x(L)>>, <<"C08", M08(L)>>, <<"C09", M09(L)>>,
-    <<"C10", M10(L)>>, <<"C11", M11(L)>>, <<"C12", M12(L)>>, <<"C13", M13(L)>>, <<"C16", M16(L)>>,
+    <<"C10", M10(L)>>, <<"C11", M11(L)>>, <<"C12", M12(L) /\ M12x(L)>>, <<"C13", M13(L)>>, <<"C16", M16(L)>>,
     <<"C18", M18(L)>>, <<"C19", M19(L)>>, <<"C20", M20(L)>> }
 
 \* monitors that do not depend on the order in which concurrent exchanges touched the store
@@ -447,7 +459,7 @@ Ante(L) ==
     <<"C05", A05(L)>>, <<"C06", A06(L)>>, <<"C07", (IsRet(L) /\ L.last.unsafeOK) \/ A07(L)>>,
     <<"C08", A08(L) /\ (L.last.val304 \/ L.last.effBefore[L.last.e.tok].n304 > 0)>>, <<"C09", A09(L)>>,
     <<"C10", (AGrp(L) /\ L.gk = "log") \/ (A10(L) /\ (L.last.o.nfault > 0 \/ L.last.e.err = 1 \/ (Len(L.last.fg) > 0 /\ SieFail(L.last.fg[Len(L.last.fg)]))))>>,
-    <<"C11", A11(L)>>, <<"C12", A12(L)>>, <<"C13", A13s(L) \/ A13m(L) \/ (IsRet(L) /\ Len(L.last.fg) > 0 /\ SieFail(L.last.fg[Len(L.last.fg)]) /\ L.last.cands # {})>>,
+    <<"C11", A11(L)>>, <<"C12", A12(L) \/ (IsRet(L) /\ HugeInvolved(L))>>, <<"C13", A13s(L) \/ A13m(L) \/ (IsRet(L) /\ Len(L.last.fg) > 0 /\ SieFail(L.last.fg[Len(L.last.fg)]) /\ L.last.cands # {})>>,
     <<"C16", A16(L)>>, <<"C18", A18(L)>>, <<"C19", A19(L)>>, <<"C20", A20(L)>> }
 
 NonTrivial(L) == IF L.last.kind \in {"none", "quiet", "reset"} THEN {} ELSE { p[1] : p \in { q \in Ante(L) : q[2] } }
